@@ -30,6 +30,8 @@ THEOREMS = {
     "C07": [("XV.Macro.loop_partition", _PM), ("XV.Macro.param_is_concat", _PM), ("XV.Macro.concat_is_source_slice", _PM)],
     "C08": [("XV.Tz.pseudo_token_is_source_slice", "XonshVerif.Proofs.Tiling"), ("XV.Tz.handleEndProgs_adv", _PT), ("XV.Tz.nextPseudo_adv", _PT), ("XV.Tz.scanLine_no_loopFuel", _PT)],
     "C11": [("XV.Helpers.error_wellformed", _HELP)],
+    "C14": [("XV.Tz.tokens_after_neutral_prefix", "XonshVerif.Properties.C14"), ("XV.Tz.tokenize_append", "XonshVerif.Properties.C14"), ("XV.Tz.neutral_prefix_lines", "XonshVerif.Properties.C14"),
+            ("XV.Tz.tokenizeLines_sh", "XonshVerif.Proofs.TokCompose"), ("XV.Tz.tokenizeLines_append", "XonshVerif.Proofs.TokCompose")],
     "C15": [("XV.Peg.parse_verbose", "XonshVerif.Properties.C15"), ("XV.Peg.execRule_verbose", "XonshVerif.Properties.C15"), ("XV.Peg.vinv", "XonshVerif.Proofs.PegVerbose")],
     "C18": [("XV.Peg.no_multi_edge_on_cycle", _PC), ("XV.Peg.memo_hit_is_constant", _PC)],
     "C02": _INERT,
